@@ -131,6 +131,10 @@ def ensure_makefile():
     stamp = os.path.join(COQ, ".files")
     content = "\n".join(files) + "\n"
     if write_if_changed(stamp, content) or not os.path.exists(os.path.join(COQ, "Makefile")):
+        # the dependency file of the previous file list would be reused as it is: start it afresh
+        for stale in (".Makefile.d",):
+            if os.path.exists(os.path.join(COQ, stale)):
+                os.remove(os.path.join(COQ, stale))
         run(["coq_makefile", "-f", "_CoqProject", "-o", "Makefile"] + files, cwd=COQ, check=True)
 
 
